@@ -274,6 +274,18 @@ def run_table(case, ctx):
                 m.past, m.delay2 = past, delay2
             cfg["model_object"] = "reused-and-reparametrised"
             ctx.hit("build_ts_X_y.reused_model")
+        if mk in (2, 3) and (n + 2 * past + delay2) % 3 == 1 and "model_object" not in cfg:
+            # a regressor with an earlier life: fitted with a differencing preprocessing, it carries preprocessing_.
+            # build_ts_X_y frames the series it is given; what the model learnt before is not its business
+            try:
+                from mlinsights.timeseries.preprocessing import TimeSeriesDifference
+                m.set_params(preprocessing=TimeSeriesDifference(1 + n % 2))
+                m.fit(None, numpy.cumsum(numpy.arange(float(3 * (past + delay2) + 8))) * 0.5)
+                if hasattr(m, "preprocessing_"):
+                    cfg["model_object"] = "fitted-before-with-a-preprocessing"
+                    ctx.hit("build_ts_X_y.model_fitted_before_with_preprocessing")
+            except Exception:
+                m = make_model(mk, past, delay2)
         try:
             # the flag as a Python bool, as a NumPy bool (the result of a comparison, `.all()`, a cell of a
             # boolean array) or as an integer
@@ -427,6 +439,30 @@ def _run_mape(case, ctx):
                     ctx.nontriv("naive", cfg)
                 else:
                     ctx.check(v >= 0, "C20/ts_mape/negative", "ts_mape=%r" % v, cfg=cfg)
+        # the observed series held in a pandas container (a column of the user's table, with its own index), the naive
+        # forecast complete (first value filled in, no NaN anywhere): still 1
+        import pandas
+        predc = numpy.empty(n)
+        predc[1:] = y[:-1]
+        predc[0] = y[0]
+        ixp = numpy.random.RandomState(case["sub"] % 977).permutation(n) + 3
+        for cname, yc in (("Series", pandas.Series(y, index=ixp)), ("one-column-frame", pandas.DataFrame({"y": y}, index=ixp)),
+                          ("Series-default-index", pandas.Series(y))):
+            cfgc = {"n": n, "kind": kind, "weights": with_w, "target_container": cname, "sub": case["sub"]}
+            denc = float(numpy.sum(numpy.abs(numpy.diff(y)) * (numpy.ones(n) if w is None else w)[1:]))
+            try:
+                vc = float(ts_mape(yc, predc, sample_weight=w))
+            except Exception as e:
+                ctx.hit("ts_mape.pandas_target")
+                ctx.violation("C20/ts_mape/raised/%s/pandas-target" % type(e).__name__, "observed series given as a %s: %s" % (
+                    cname, str(e)[:120]), cfg=cfgc)
+                continue
+            ctx.hit("ts_mape.pandas_target")
+            if denc > 0 and not abs(vc - 1.0) <= 1e-12:
+                ctx.violation("C20/ts_mape/naive-not-1/pandas-target", "observed series given as a %s, complete naive "
+                              "forecast: ts_mape=%r, not 1" % (cname, vc), cfg=cfgc)
+            elif not vc >= 0:
+                ctx.violation("C20/ts_mape/negative", "ts_mape=%r" % vc, cfg=cfgc)
         # arbitrary forecasts: non-negativity, and the documented ratio when no NaN
         pred = y + rng.randn(n) * rng.choice([0.0, 0.1, 3.0]) * scale
         cfg = {"n": n, "kind": kind, "weights": with_w, "arbitrary": True, "sub": case["sub"]}
